@@ -74,35 +74,52 @@ func VPH_C04_weights() {
 	}
 }
 
-// VPH_C04_setweight: 'route weight' assigns weight/n to exactly the matching targets.
+// VPH_C04_setweight: 'route weight' assigns weight/n to exactly the targets that match the
+// service and carry ALL tags of the selector.
 func VPH_C04_setweight() {
 	svcs := []string{vp.String("svc0"), vp.String("svc1"), vp.String("svc2")}
-	tags := [][]string{{vp.String("tag0")}, {vp.String("tag1")}, nil}
+	tags := [][]string{{vp.String("tag0a"), vp.String("tag0b")}, {vp.String("tag1")}, nil}
 	old := []float64{0.1, 0.2, 0}
 	r := &Route{Host: "h", Path: "/"}
 	for i := range svcs {
 		r.Targets = append(r.Targets, &Target{Service: svcs[i], Tags: tags[i], URL: vpURL(), FixedWeight: old[i]})
 	}
-	svc, tag := vp.String("service"), vp.String("tag")
+	svc := vp.String("service")
 	var sel []string
-	if vp.Bool("by-tag") {
-		sel = []string{tag}
+	switch vp.Choice("selector-tags", 3) {
+	case 1:
+		sel = []string{vp.String("sel0")}
+	case 2:
+		sel = []string{vp.String("sel0"), vp.String("sel1")}
+		vp.Cover("two-tag-selector")
 	}
 	w := vp.Float64("weight")
 	vp.Assume(w == 0 || (w >= 1e-6 && w <= 1)) // weights outside [1e-9, 1e9] are treated as dynamic (C02)
 	vp.CutBefore("sort.Sort")
 	got := r.setWeight(svc, w, sel)
+	hasAll := func(have []string) bool {
+		for _, s := range sel {
+			ok := false
+			for _, h := range have {
+				if h == s {
+					ok = true
+				}
+			}
+			if !ok {
+				return false
+			}
+		}
+		return true
+	}
 	matches := 0
 	for i := range svcs {
-		m := (svc == "" || svcs[i] == svc) && (len(sel) == 0 || (len(tags[i]) > 0 && tags[i][0] == tag))
-		if m {
+		if (svc == "" || svcs[i] == svc) && hasAll(tags[i]) {
 			matches++
 		}
 	}
 	vp.Assert(got == matches, "returns-number-of-matching-targets")
 	for i, t := range r.Targets {
-		m := (svc == "" || svcs[i] == svc) && (len(sel) == 0 || (len(tags[i]) > 0 && tags[i][0] == tag))
-		if m {
+		if (svc == "" || svcs[i] == svc) && hasAll(tags[i]) {
 			vp.Cover("matched")
 			vp.Assert(t.FixedWeight*float64(matches) == w, "matching-target-gets-weight-over-n")
 		} else {
